@@ -26,3 +26,22 @@ class Entry:
         for o in self._items:
             out.extend(parts[o])
         return out
+
+
+class Names:
+    def __init__(self, kind):
+        self.kind = kind
+
+
+class Holder:
+    def __init__(self, kind):
+        self._kind = kind
+        self._names = Names(self._kind)
+
+    @property
+    def kind(self):
+        return self._kind
+
+    @kind.setter
+    def kind(self, kind):
+        self._kind = kind
